@@ -302,6 +302,23 @@ def check(cx):
             if e.data['op'] != 'Add' or e.data['rhs'] != ('lit', 1) or not ok:
                 r6.violation('process_join|quota-counter-step', 'the quota counter is not incremented by one exactly on '
                              'accepted joins', loc=cx.loc(e.node))
+            if not _step_in_decision_loop(w, e, jc_terms):
+                r6.violation('process_join|quota-counter-late', 'the quota counter is incremented outside the loop that compares it with '
+                             'max_joins: all channels of one JOIN are tested against the count before the command', loc=cx.loc(e.node))
+
+
+def _step_in_decision_loop(w, step, jc_terms):
+    """the increment happens in the loop in which the counter is compared with max_joins (so that the next channel of the same
+       JOIN is tested against the updated count)"""
+    mj = field(CONFIG, 'max_joins')
+    first = None
+    for e in w.events:
+        if any(a[0] == 'lt' and a[1] in jc_terms and a[2] == ('some_of', mj) for a in atoms(e.pc)) and e.loops:
+            first = e
+            break
+    if first is None:
+        return True      # no comparison at all: reported by the comparison rules
+    return bool(step.loops) and step.loops[0][1] == first.loops[0][1]
 
 
 def rule_quota(cx, rule):
@@ -322,6 +339,10 @@ def rule_quota(cx, rule):
         rule.violation('process_join|quota-counter-init', 'no counter initialised to the number of channels the user is in', loc=fn)
         return
     steps = [e for e in w.events if e.kind == 'assignop' and e.data['lhs'] in jc_terms]
+    for e in steps:
+        if not _step_in_decision_loop(w, e, jc_terms):
+            rule.violation('process_join|quota-counter-late', 'the join counter is incremented outside the loop that compares it with '
+                           'max_joins: all channels of one JOIN are tested against the count before the command', loc=cx.loc(e.node))
     adds = [e for e in w.events if (is_call(e, 'add_user') and e.data.get('local')) or (is_call(e, 'insert') and e.data['args'][0] == CHANNELS)]
     rule.instance('counter steps: %d, admission sites: %d' % (len(steps), len(adds)))
     if not steps or any(e.data['op'] != 'Add' or e.data['rhs'] != ('lit', 1) for e in steps) or \
